@@ -205,6 +205,7 @@ type ccWaiterRec struct {
 	old         int
 	minVal      int
 	validatorEr error
+	validatorErred atomic.Bool
 	useErrCh    int // 0 none, 1 error delivered, 2 closed, 3 nil delivered then nothing
 	errSent     atomic.Int64
 	errCh       chan error
@@ -328,7 +329,9 @@ func ccWaitersCase(c *mon.Case) {
 						ctr.GetValue()
 					}
 					if wr.validatorEr != nil && v >= wr.minVal {
-						return false, wr.validatorEr
+						// the validator's error ends the wait, whatever verdict comes with it
+						wr.validatorErred.Store(true)
+						return wr.id%2 == 0, wr.validatorEr
 					}
 					return v >= wr.minVal, nil
 				}, errCh)
@@ -560,6 +563,10 @@ func ccWaitersCase(c *mon.Case) {
 			default:
 				c.Violate("ccontainer", "waiter-foreign-error", "waiter %d returned %v", wr.id, wr.err)
 			}
+			continue
+		}
+		if wr.validatorErred.Load() {
+			c.Violate("ccontainer", "waiter-validator-error-ignored", "waiter %d (validator min=%d): its validator returned the error %v (together with the verdict %v), the wait returned (%d, nil)", wr.id, wr.minVal, wr.validatorEr, wr.id%2 == 0, wr.val)
 			continue
 		}
 		if wr.kind == "empty" {
